@@ -7,6 +7,7 @@ shapes the analyser uses are rewritten by RULE (no per-site text), on the extrac
     RECV.map_or_else(|| A, |P| B)   ->  match RECV { Some(P) => B, None => A }
     RECV.map_or(D, |P| B)           ->  match RECV { Some(P) => B, None => D }        (D a plain value)
     RECV.is_some_and(|P| B)         ->  match RECV { Some(P) => B, None => false }
+    RECV.filter(|p| B)              ->  match RECV { Some(oq3_x) => { let oq3_keep = { let p = &oq3_x; B }; if oq3_keep { Some(oq3_x) } else { None } }, None => None }
     RECV.unwrap_or_else(|| A)       ->  match RECV { Some(x) => x, None => A }
     RECV.map(Enum::Variant)         ->  match RECV { Some(oq3_x) => Some(Enum::Variant(oq3_x)), None => None }
   Iterator receiver (the call is followed by `.collect()` / `.collect::<..>()`)
@@ -26,8 +27,8 @@ import re
 
 from .rustsrc import RustFile
 
-METHODS = ('map', 'and_then', 'filter_map', 'map_or_else', 'map_or', 'is_some_and', 'unwrap_or_else')
-_CALL = re.compile(r'\.\s*(map_or_else|map_or|map|and_then|filter_map|is_some_and|unwrap_or_else)\s*\(\s*(?:\||[^()|]*,\s*\|)')
+METHODS = ('map', 'and_then', 'filter_map', 'filter', 'map_or_else', 'map_or', 'is_some_and', 'unwrap_or_else')
+_CALL = re.compile(r'\.\s*(map_or_else|map_or|map|and_then|filter_map|filter|is_some_and|unwrap_or_else)\s*\(\s*(?:\||[^()|]*,\s*\|)')
 _MAP_PATH = re.compile(r'\.\s*map\s*\(\s*([A-Z][A-Za-z0-9_]*(?:::[A-Za-z_][A-Za-z0-9_]*)+)\s*\)')
 _COLLECT = re.compile(r'\s*\.\s*collect\s*(::\s*<\s*Vec\s*<\s*_\s*>\s*>)?\s*\(\s*\)')
 
@@ -215,6 +216,17 @@ def desugar_closures(text):
                 new = 'match %s { Some(%s) => %s, None => false }' % (recv, p1, b_body)
                 end = pc + 1
                 rule = 'D3 Option::is_some_and'
+            elif meth == 'filter':
+                # Option::filter: the predicate sees a reference to the payload
+                if len(args) != 1 or mc:
+                    raise NoRule('filter shape (iterator filters are not covered)')
+                p1, b_body = _closure(text, code, *args[0])
+                if p1 is None or not re.fullmatch(r'[A-Za-z_]\w*', p1.strip()):
+                    raise NoRule('filter closure parameter is not a plain identifier')
+                new = ('match %s { Some(oq3_x) => { let oq3_keep = { let %s = &oq3_x; %s }; if oq3_keep { Some(oq3_x) } else { None } }, None => None }'
+                       % (recv, p1.strip(), b_body))
+                end = pc + 1
+                rule = 'D3 Option::filter'
             elif meth == 'unwrap_or_else':
                 if len(args) != 1 or mc:
                     raise NoRule('unwrap_or_else shape')
